@@ -148,3 +148,52 @@ pub fn set_node_states(cluster: &ClusterState, f: impl Fn(Uuid) -> Option<(bool,
         node.verif_set_state(f(node.host_id));
     }
 }
+
+/// Teach a clone of `cluster` one tablet of `keyspace.table`: the `tablets-routing-v1` custom
+/// payload value for (`first_token` exclusive, `last_token` inclusive, `replicas` = (host id,
+/// shard) in tablet order) is serialised here, parsed by the production
+/// `RawTablet::from_custom_payload` and applied by the production `ClusterState::update_tablets`
+/// on a clone of the state - the steps `ClusterWorker` performs. Returns the new state.
+pub fn learn_tablet(
+    cluster: &ClusterState,
+    keyspace: &str,
+    table: &str,
+    first_token: i64,
+    last_token: i64,
+    replicas: &[(Uuid, i32)],
+) -> Result<ClusterState, String> {
+    use crate::frame::response::result::TableSpec;
+    use crate::routing::locator::tablets::RawTablet;
+
+    // tuple<bigint, bigint, list<tuple<uuid, int>>>, CQL binary encoding
+    let mut body: Vec<u8> = Vec::new();
+    for t in [first_token, last_token] {
+        body.extend_from_slice(&8i32.to_be_bytes());
+        body.extend_from_slice(&t.to_be_bytes());
+    }
+    let mut list: Vec<u8> = Vec::new();
+    list.extend_from_slice(&(replicas.len() as i32).to_be_bytes());
+    for (id, shard) in replicas {
+        list.extend_from_slice(&28i32.to_be_bytes());
+        list.extend_from_slice(&16i32.to_be_bytes());
+        list.extend_from_slice(id.as_bytes());
+        list.extend_from_slice(&4i32.to_be_bytes());
+        list.extend_from_slice(&shard.to_be_bytes());
+    }
+    body.extend_from_slice(&(list.len() as i32).to_be_bytes());
+    body.extend_from_slice(&list);
+
+    let mut payload: HashMap<String, bytes::Bytes> = HashMap::new();
+    payload.insert("tablets-routing-v1".to_owned(), bytes::Bytes::from(body));
+    let raw = match RawTablet::from_custom_payload(&payload) {
+        Some(Ok(raw)) => raw,
+        Some(Err(e)) => return Err(format!("tablet payload rejected: {e}")),
+        None => return Err("tablet payload not recognised".to_owned()),
+    };
+    let mut new_state = cluster.clone();
+    new_state.verif_update_tablets(vec![(
+        TableSpec::owned(keyspace.to_owned(), table.to_owned()),
+        raw,
+    )]);
+    Ok(new_state)
+}
